@@ -121,6 +121,61 @@ def extract(ctx, dump):
     return None
 
 
+# ---- expressions in the positions of control statements, next to blocks that declare things -----------------------------------
+STMT_BODIES = ["", "int t[2]; t[0] = 1;", "int t[2][3];", "int t[c + 1];", "typedef int[0,1] lt; lt q9;", "struct { int f; } sq;", "int t[int[0,1]];",
+               "{ int u[2]; }", "int q9 = 1;", "int t[2] = { 1, 2 };", "const int n9 = 2; int t[n9];"]
+STMT_POSITIONS = {      # name -> (function text with {E} and {B}, how the expected tree shows in the body)
+    "if-condition": ("void ff() {{ if ({E}) {{ {B} }} }}", lambda b, e: ("(if " + e + " (block ") in b),
+    "if-else-condition": ("void ff() {{ if ({E}) {{ {B} }} else {{ {B} }} }}", lambda b, e: ("(if " + e + " (block ") in b),
+    "while-condition": ("void ff() {{ while ({E}) {{ {B} }} }}", lambda b, e: ("(while " + e + " (block ") in b),
+    "do-while-condition": ("void ff() {{ do {{ {B} }} while ({E}); }}", lambda b, e: b.startswith("(block frame=[] (do (block ") and b.endswith(" " + e + "))")),
+    "for-condition": ("void ff() {{ for (a = 0; {E}; a++) {{ {B} }} }}",
+                      lambda b, e: ("(for (ASSIGN (IDENTIFIER a) (CONSTANT:INT 0)) " + e + " (POST_INCREMENT (IDENTIFIER a)) (block ") in b),
+    "for-initialisation": ("void ff() {{ for ({E}; a < 3; a++) {{ {B} }} }}", lambda b, e: ("(for " + e + " (LT (IDENTIFIER a) (CONSTANT:INT 3)) ") in b),
+    "for-step": ("void ff() {{ for (a = 0; a < 3; {E}) {{ {B} }} }}", lambda b, e: ("(LT (IDENTIFIER a) (CONSTANT:INT 3)) " + e + " (block ") in b),
+    "return-after-block": ("int ff() {{ {{ {B} }} return {E}; }}", lambda b, e: b.endswith("(return " + e + "))")),
+    "assert-after-block": ("void ff() {{ {{ {B} }} assert({E}); }}", lambda b, e: b.endswith("(assert " + e + "))")),
+    "inner-if-in-while": ("void ff() {{ while (p) {{ if ({E}) {{ {B} }} }} }}", lambda b, e: ("(while (IDENTIFIER p) (block frame=[] (if " + e + " (block ") in b),
+    "statement-after-if": ("void ff() {{ if (p) {{ {B} }} {E}; }}", lambda b, e: b.endswith("(expr " + e + "))")),
+    "iteration-body": ("void ff() {{ for (i9 : int[0,1]) {{ {B} d = {E}; }} }}", lambda b, e: ("(expr (ASSIGN (IDENTIFIER d) " + e + "))") in b),
+}
+
+
+def run_statements(shard):
+    i, n = shard
+    part = engine.Part()
+    w = engine.worker("fast")
+    ts = [t for k, t in enumerate(G.depth1()) if k % n == i]
+    docs, meta = [], []
+    for name, t in ts:
+        text = G.render(t, False)
+        for pos, (tpl, _) in STMT_POSITIONS.items():
+            for body in STMT_BODIES:
+                docs.append(xmlgen.nta(G.DECL + "\n" + tpl.format(E=text, B=body),
+                                       [xmlgen.template("T", locations=[xmlgen.location("id0", "L0")], init="id0")], "system T;"))
+                meta.append((name, t, text, pos, body))
+    res = xmlgen.run_docs(w, docs, want=["dump", "nosymtypes", "noinv"], batch=50)
+    for (name, t, text, pos, body), doc, r in zip(meta, docs, res):
+        part.count()
+        rp = {"op": "xml", "buf": doc, "want": ["dump", "nosymtypes"], "position": pos, "expected": G.expected(t)}
+        if engine.check_crash(part, PID, r, pos + ": " + text, rp):
+            continue
+        syntax = [e for e in r.get("errors", []) if "syntax" in e["msg"] or "unexpected" in e["msg"]]
+        fb = [f["body"] for f in r.get("dump", {}).get("globals", {}).get("funcs", []) if f["name"] == "ff"]
+        part.nontrivial_case("stmt:%s:%s:%s" % (pos, body, text))
+        if syntax or not fb:
+            part.outcome("stmt-rejected")      # (an assignment as a condition etc. may be refused by the grammar; nothing to compare)
+            continue
+        if STMT_POSITIONS[pos][1](fb[0], G.expected(t)):
+            part.outcome("stmt-tree-ok")
+        else:
+            part.outcome("stmt-tree-mismatch")
+            part.violation("stmt-tree:%s:%s" % (pos, "with-declarations" if body else "plain"),
+                           "`%s` as the %s next to a block `{ %s }`: the statement handed to clients is %s, the expression's tree is %s"
+                           % (text, pos, body, fb[0][:300], G.expected(t)), rp)
+    return part.result()
+
+
 def run_contexts(shard):
     part = engine.Part()
     w = engine.worker("fast")
@@ -306,6 +361,8 @@ def main():
         rep.merge(res)
     cshards = [("d1", 0, 1)] + [("d2", i, n) for i in range(n)]
     for res in engine.pmap(run_contexts, cshards):
+        rep.merge(res)
+    for res in engine.pmap(run_statements, [(i, engine.ncpu()) for i in range(engine.ncpu())]):
         rep.merge(res)
     run_literals(rep)
     rep.assumptions = ["reference R1 (lib/exprgen.py) is an independent transcription of the UPPAAL operator table",
